@@ -16,9 +16,20 @@ from pkstatic.model import Program
 from pkstatic.defined import written_attrs
 prog = Program()
 w = {}
+def module_names(mi):
+    g = set(mi.imports) | set(mi.functions) | set(mi.classes) | {k for k in mi.assigns if '.' not in k}
+    for st in mi.tree.body:
+        if not isinstance(st, (ast.FunctionDef, ast.ClassDef)):
+            g |= {n.id for n in ast.walk(st) if isinstance(n, ast.Name) and isinstance(n.ctx, ast.Store)}
+    return g
+
+
 for mname, mi in prog.modules.items():
+    names = module_names(mi)
     for ci in mi.classes.values():
         for fi in ci.methods.values():
-            w[f'{mname}:{fi.qualname}'] = dict(sorted(written_attrs(fi.node).items()))
+            w[f'{mname}:{fi.qualname}'] = dict(sorted(written_attrs(fi.node, names).items()))
+    for fi in mi.functions.values():
+        w[f'{mname}:{fi.qualname}'] = dict(sorted(written_attrs(fi.node, names).items()))
 json.dump(w, open('/verif/pkstatic/known_writes.json', 'w'), indent=0, sort_keys=True)
 print(len(w), 'methods with write sets')
